@@ -223,20 +223,28 @@ inductive SubRes where
   | err
   deriving Repr, DecidableEq
 
+/-- `new_start` of `byte_substring` / `view_substring_range` relative to the element:
+`start > 0` → `min(start, n)`; `0` → `0`; `start < 0` → `max(n + start, 0)` -/
+def subStart (n : Nat) (start : Int) : Nat :=
+  (if start > 0 then min start (n : Int) else if start = 0 then 0 else max ((n : Int) + start) 0).toNat
+
+/-- `new_end`: `min(length + new_start, n)`, or `n` when no length is given -/
+def subEnd (n st : Nat) (len : Option Nat) : Nat :=
+  match len with
+  | some l => min (l + st) n
+  | none => n
+
 /-- one element of `byte_substring` / `string_view_substring` (offsets relative to the
 element, `pair[0] = 0`, `pair[1] = v.length`).  `check` = the array is a string array
 (`check_char_boundary` / `is_char_boundary`); binary arrays are never checked.
 `len` is the requested length already converted to the offset type.  Note the start is
 checked only when `start ≠ 0`. -/
 def byteSubstring (check : Bool) (v : List Nat) (start : Int) (len : Option Nat) : SubRes :=
-  let n : Int := v.length
-  let newStart : Int := if start > 0 then min start n else if start = 0 then 0 else max (n + start) 0
-  let okStart := start = 0 || !check || isCharBoundary v newStart.toNat
-  let newEnd : Int := match len with
-    | some l => min ((l : Int) + newStart) n
-    | none => n
-  let okEnd := len.isNone || !check || isCharBoundary v newEnd.toNat
-  if okStart && okEnd then .ok ((v.take newEnd.toNat).drop newStart.toNat) else .err
+  let st := subStart v.length start
+  let e := subEnd v.length st len
+  let okStart := start = 0 || !check || isCharBoundary v st
+  let okEnd := len.isNone || !check || isCharBoundary v e
+  if okStart && okEnd then .ok ((v.take e).drop st) else .err
 
 /-! ## `substring_by_char` -/
 
